@@ -357,8 +357,12 @@ pub fn c12(out: &mut dyn Write, tier: &str, rng: &mut Rng, st: &mut Stats) {
     let runs = if tier == "thorough" { 10000 } else { 400 };
     let bin = format!("{}/rsbdd", std::env::var("VERIF_BIN_DIR").unwrap_or_default());
     let scratch = std::env::var("VERIF_SCRATCH").unwrap_or_else(|_| ".".to_string());
+    // fixed points nested in one another, the inner body mentioning the outer name (and its own, or not): all converge
+    let nested: [&str; 8] = ["lfp X # (a | lfp Y # ((X & b) | Y))", "gfp X # (a & nu Y # (X | (Y & b)))", "mu X # (a | (b & nu Y # X))",
+        "lfp X # (a | gfp Y # (X & b))", "nu X # (a & lfp Y # (b | (X & lfp Z # (X | Y | Z))))", "lfp X # lfp Y # (X | Y | a)",
+        "gfp X # ((exists a # (X & a)) | lfp Y # (Y | (X & b)))", "lfp X # ([X, a, lfp Y # (Y | X)] >= 2)"];
     for i in 0..runs {
-        let text: Vec<u8> = if i % 3 == 0 {
+        let text: Vec<u8> = if i < nested.len() { st.hit("cli.nested-fixed-points"); nested[i].as_bytes().to_vec() } else if i % 3 == 0 {
             // plain names, and names that are legal in the language but not as graphviz identifiers
             let names: Vec<String> = if i % 2 == 0 { vec!["a".into(), "b".into(), "c".into(), "d".into()] }
                 else { vec!["a'".into(), "\u{e9}".into(), "x_1".into(), "\u{3b1}\u{3b2}".into(), "b''".into()] };
